@@ -540,6 +540,40 @@ func (m *Model) RunScope(s *Sink, rule string) {
 	if nw == 0 {
 		s.OK(rule, "object.Env|only NewEnv, Set and SetLoopVar write a scope, and only their own", "-", "no other function updates an Env store; none writes through e.outer")
 	}
+	// the scope-writing methods touch nothing but the receiver's own store
+	for _, mn := range []string{"Set", "SetLoopVar"} {
+		fn := m.Method("object", "Env", mn)
+		if fn == nil {
+			continue
+		}
+		bad := ""
+		for _, b := range fn.Blocks {
+			for _, in := range b.Instrs {
+				switch x := in.(type) {
+				case *ssa.MapUpdate:
+					if fieldPathOf(x.Map) != ".store" {
+						bad = "map update " + valueDesc(x.Map) + " at " + m.InstrPos(in)
+					} else if r, _, _ := pathOf(stripIface(x.Map)); r != ssa.Value(fn.Params[0]) {
+						bad = "map update of another scope's store at " + m.InstrPos(in)
+					}
+				case *ssa.Store:
+					if fa, ok := x.Addr.(*ssa.FieldAddr); ok {
+						if _, fresh := fa.X.(*ssa.Alloc); !fresh {
+							bad = "store to " + valueDesc(x.Addr) + " at " + m.InstrPos(in)
+						}
+					} else if _, isAlloc := x.Addr.(*ssa.Alloc); !isAlloc {
+						bad = "store to " + valueDesc(x.Addr) + " at " + m.InstrPos(in)
+					}
+				}
+			}
+		}
+		key := fnKey(fn) + "|writes only the receiver's own store"
+		if bad == "" {
+			s.OK(rule, key, m.Pos(fn.Pos()), "the only memory written is e.store[...] of the receiver (and objects allocated in the call)")
+		} else {
+			s.Violation(rule, key, m.Pos(fn.Pos()), "%s writes memory other than its receiver's own store (%s): an object or scope visible to an enclosing block is modified (e.g. the enclosing loop's loop object is overwritten by a nested loop)", fnKey(fn), bad)
+		}
+	}
 	// Set: reserved name and type checks dominate the store
 	set := m.Method("object", "Env", "Set")
 	if set != nil {
